@@ -81,7 +81,7 @@ func TestC04(t *testing.T) {
 		MinRules: 1, MaxRules: 4, MinHot: 3, MaxHot: 7, MaxActions: 6, ExprDepth: 2, ConvWrites: true,
 	}
 	cfg := rsGenCfg{Rules: rc, Vary: true, MaxCycle: func(rt *rapid.T) uint64 { return uint64(rapid.IntRange(1, 6).Draw(rt, "maxcycle")) }}
-	check(t, 0, budget(1500, 60000), func(rt *rapid.T) {
+	check(t, 0, budget(6000, 80000), func(rt *rapid.T) {
 		c, rs := genRSCase(rt, cfg)
 		rep, v := runValidated(rt, c, "C04")
 		nt, fl := c04Features(c, rep, rs.Hot)
